@@ -17,7 +17,8 @@ import time
 
 import vf
 
-WORKLOADS = os.environ.get("VERIF_C36_WORKLOADS", "C18 C11 C19 C16 C34 C28 C27 C25 C26 C29").split()
+QUICK = "C18 C19 C16 C34 C25 C26"
+ALL = "C18 C11 C19 C16 C34 C28 C27 C25 C26 C29"
 
 
 def frames(block):
@@ -43,6 +44,56 @@ def frames(block):
     return None
 
 
+def allfuncs(block):
+    """All gopcua function names appearing in one stack of a race report."""
+    res = []
+    for line in block.splitlines():
+        fn = line.strip()
+        if fn.startswith("github.com/gopcua/opcua") and fn.endswith(")"):
+            f = re.sub(r"\(\)$", "", fn.split(" ")[0]).replace("github.com/gopcua/opcua/", "").replace("github.com/gopcua/opcua.", "opcua.")
+            res.append(re.sub(r"\.func\d+(\.\d+)*$", "", f))
+    return res
+
+
+# Root causes that produce many different pairs of access sites (which pair is reported depends on
+# the policy, the seed and the schedule).  A report is attributed to a root cause only when BOTH
+# conflicting stacks lie in the code regions named here; every other race keeps its own key (the
+# pair of innermost gopcua functions), so a race anywhere else is still a new violation.
+ROOT_CAUSES = [
+    ("race:server-channel-rekeys-its-active-instance-in-place",
+     ["uasc.(*SecureChannel).handleOpenSecureChannelRequest", "uasc.(*SecureChannel).readChunk"],
+     ["uasc.(*channelInstance).signAndEncrypt", "uasc.(*SecureChannel).writeMessageChunks",
+      "uasc.(*channelInstance).newMessage", "uasc.(*channelInstance).verifyAndDecrypt"]),
+    ("race:server-node-attributes-unsynchronised",
+     ["server.(*Node).SetAttribute"],
+     ["server.(*Node).Attribute", "server.(*NodeNameSpace).Attribute", "server.(*Node).SetAttribute",
+      "server.(*Node).Value", "server.(*MonitoredItemService).ChangeNotification",
+      "ua.(*DataValue).Encode", "ua.(*Variant).Encode"]),
+    ("race:client-opening-instance-read-by-dispatcher-while-open-writes",
+     ["uasc.(*SecureChannel).open"],
+     ["uasc.(*SecureChannel).readChunk"]),
+    ("race:client-connection-replaced-by-reconnect-dial-during-close",
+     ["opcua.(*Client).Close"],
+     ["opcua.(*Client).Dial", "opcua.(*Client).monitor"]),
+]
+
+
+def root_cause(fa, fb):
+    for key, left, right in ROOT_CAUSES:
+        for x, y in ((fa, fb), (fb, fa)):
+            if any(f in left for f in x) and any(f in right for f in y):
+                return key
+    # a node value written by the application (no gopcua frame besides value constructors) and
+    # encoded by the server's dispatcher without synchronisation: same root cause as the
+    # unsynchronised node attributes
+    for x, y in ((fa, fb), (fb, fa)):
+        if "server.(*Server).handleService" in x and \
+                any(f in ("ua.(*DataValue).Encode", "ua.(*Variant).Encode") for f in x) and \
+                all(f.startswith("ua.New") or f.startswith("ua.Must") for f in y):
+            return "race:server-node-attributes-unsynchronised"
+    return None
+
+
 def parse_reports(text):
     res = []
     for rep in re.split(r"={18}\n", text):
@@ -56,7 +107,8 @@ def parse_reports(text):
         if not a and not b:
             continue   # race entirely inside the harness or the runtime: not gopcua's
         pair = sorted([a or "harness", b or "harness"])
-        key = "race:" + "|".join(re.sub(r":\d+$", "", x) for x in pair)
+        key = root_cause(allfuncs(acc[0]), allfuncs(acc[1]) if len(acc) > 1 else []) or \
+            "race:" + "|".join(re.sub(r":\d+$", "", x) for x in pair)
         res.append({"key": key, "sites": pair, "report": rep[:3000]})
     return res
 
@@ -69,24 +121,30 @@ def body(run):
     env = dict(os.environ, VERIF_RACE="1", VERIF_RACE_DIR=racedir, VERIF_NO_EVIDENCE="1",
                VERIF_TIER="quick", VERIF_SEED=str(run.seed))
     ran = []
-    seeds = [run.seed] if q else [run.seed + i for i in range(4)]
-    for wid in WORKLOADS:
-        if not os.path.exists(os.path.join(vf.VERIF, "checks", wid + ".py")):
-            continue
-        for sd in seeds:
-            env["VERIF_SEED"] = str(sd)
-            t0 = time.time()
-            try:
-                p = subprocess.run([os.path.join(vf.VERIF, "bin", "check"), wid, "--tier", "quick"],
-                                   env=env, stdout=subprocess.PIPE, stderr=subprocess.STDOUT, text=True,
-                                   timeout=2400, cwd=vf.VERIF)
-                rc, out = p.returncode, p.stdout
-            except subprocess.TimeoutExpired:
-                rc, out = -9, "timeout"
-            m = re.search(r"evaluations=(\d+)", out or "")
-            ran.append({"workload": wid, "seed": sd, "exit": rc, "wall_s": round(time.time() - t0, 1),
-                        "evaluations": int(m.group(1)) if m else 0})
-            run.log("workload %s seed %d under -race: exit %d in %.0fs" % (wid, sd, rc, time.time() - t0))
+    seeds = [run.seed] if q else [run.seed + i for i in range(3)]
+    workloads = os.environ.get("VERIF_C36_WORKLOADS", QUICK if q else ALL).split()
+
+    def one(job):
+        wid, sd = job
+        e = dict(env, VERIF_SEED=str(sd))
+        t0 = time.time()
+        try:
+            p = subprocess.run([os.path.join(vf.VERIF, "bin", "check"), wid, "--tier", "quick"],
+                               env=e, stdout=subprocess.PIPE, stderr=subprocess.STDOUT, text=True,
+                               timeout=2400, cwd=vf.VERIF)
+            rc, out = p.returncode, p.stdout
+        except subprocess.TimeoutExpired:
+            rc, out = -9, "timeout"
+        m = re.search(r"evaluations=(\d+)", out or "")
+        run.log("workload %s seed %d under -race: exit %d in %.0fs" % (wid, sd, rc, time.time() - t0))
+        return {"workload": wid, "seed": sd, "exit": rc, "wall_s": round(time.time() - t0, 1),
+                "evaluations": int(m.group(1)) if m else 0}
+
+    jobs = [(w, sd) for w in workloads for sd in seeds
+            if os.path.exists(os.path.join(vf.VERIF, "checks", w + ".py"))]
+    import concurrent.futures as cf
+    with cf.ThreadPoolExecutor(max_workers=3) as ex:
+        ran = list(ex.map(one, jobs))
     if not [r for r in ran if r["evaluations"] > 0]:
         raise vf.Inconclusive("no workload could be run under the race detector")
     reports = []
